@@ -8,13 +8,17 @@
 (* Every explored case is printed as a (G) descriptor, so the recorder        *)
 (* replays exactly these lines into the real code.                            *)
 EXTENDS P_C17, TLC, Json
-CONSTANTS R, RT, WMax, Gen
+CONSTANTS R, RT, WMax, Gen, Broken
 VARIABLES mode, ln, it, out, done
 vars == <<mode, ln, it, out, done>>
 
 Starts == { <<0, 0>>, <<-3, 5>> }
 ThinCases  == { [s |-> s, e |-> <<s[1] + dx, s[2] + dy>>, w |-> 1] : s \in Starts, dx \in (-R)..R, dy \in (-R)..R }
 ThickCases == { [s |-> <<2, -1>>, e |-> <<2 + dx, dy - 1>>, w |-> w] : dx \in (-RT)..RT, dy \in (-RT)..RT, w \in 1..WMax }
+\* the witnesses of the open known finding D17 (wide strokes at slopes around 1:2), for MC_C17_d17.cfg: TLC must
+\* find the violation of ThickEndOK in the MODEL, i.e. the defect is a property of the algorithm as designed
+D17Cases == { [s |-> <<3, -2>>, e |-> <<26, 10>>, w |-> 40] }
+NoCases == {}
 GenLine(c) == Gen => PrintT("GEN " \o ToJson([k |-> "line", s |-> c.s, e |-> c.e, ws |-> <<c.w>>]))
 
 Init == \/ \E c \in ThinCases :
@@ -22,11 +26,16 @@ Init == \/ \E c \in ThinCases :
         \/ \E c \in ThickCases :
              mode = "thick" /\ ln = c /\ it = ThickInit(c.s, c.e, c.w) /\ out = <<>> /\ done = FALSE /\ GenLine(c)
 
+\* negative control (Broken = TRUE): a Bresenham that forgets the minor step from the third point on
+BrokenPt(prev, p) ==
+  LET d == PSub(ln.e, ln.s) IN
+  IF Abs(d[1]) >= Abs(d[2]) THEN <<p[1], prev[2]>> ELSE <<prev[1], p[2]>>
 \* one call of line::Points::next()
 StepThin ==
   /\ mode = "thin" /\ ~done
   /\ LET r == LPNext(it) IN
-       IF r[1] THEN out' = Append(out, r[2]) /\ it' = r[3] /\ done' = FALSE
+       IF r[1] THEN /\ out' = Append(out, IF Broken /\ Len(out) >= 2 THEN BrokenPt(out[Len(out)], r[2]) ELSE r[2])
+                    /\ it' = r[3] /\ done' = FALSE
        ELSE out' = out /\ it' = it /\ done' = TRUE
   /\ UNCHANGED <<mode, ln>>
 \* one call of ThickPoints::next()
